@@ -625,6 +625,19 @@ def _f_fs_triple_middle_quote(c):
     return False
 
 
+def _f_fs_single_continued(c):
+    # a single-quoted f-string continued over a physical line with backslash-newline
+    stack = []
+    for t in c.toks:
+        if t.type == getattr(tokenize, "FSTRING_START", -1):
+            stack.append((t.string, t.start[0]))
+        elif t.type == getattr(tokenize, "FSTRING_END", -1) and stack:
+            q, line = stack.pop()
+            if not (q.endswith('"""') or q.endswith("'''")) and t.end[0] != line:
+                return True
+    return False
+
+
 FINDINGS = {
     # id: (kinds, detail regex, feature, example, what)
     "C01-F01": (("tree-differs",), r"AnnAssign\.simple", _f_annassign_simple, "self.x: int = 1\n",
@@ -709,6 +722,8 @@ FINDINGS = {
                 "a nested replacement field inside a format spec whose expression is a {...} display (CPython reads `{a:{{}}}` that way) is parsed differently"),
     "C01-F41": (("tree-differs",), r"JoinedStr", _f_fs_triple_middle_quote, "f\"\"\"\\n\"{b}\"\"\"\n",
                 "in a triple-quoted f-string a literal part that ends with the delimiter's quote character (right before a replacement field) keeps its backslash escapes undecoded"),
+    "C01-F43": (("reject",), r"EOL while scanning f-string", _f_fs_single_continued, "x = f\"a\\\nb\"\n",
+                "a single-quoted f-string (any prefix: f, rf, F) continued over a line with backslash-newline is rejected ('EOL while scanning f-string'); the same text as a plain string, or triple-quoted, is accepted"),
 }
 
 
